@@ -45,13 +45,14 @@ def text_candidates(strs, chrs, cap=400):
     strs = strs[:30]; chrs = chrs[:4]
     pairs = strs[:8]
     base = list(strs)
+    if chrs: base += [x for x in ('a/b', 'text/plain', 'application/cose', 'a', 'kid', 'x/y') if x not in base]     # a new character alone: tried inside ordinary texts
     for a in pairs:
         for b in pairs:
             if a != b: base += [a + b, a + ' ' + b, a + 'x' + b, a + 'eu1' + b]
     out = []
     for t in base:
         out.append(t)
-        for c in chrs: out += [t + c, t + c + 'é', c + t, t + c + c]
+        for c in chrs: out += [t + c, t + c + 'é', c + t, t + c + c, t[:1] + c + t[1:], t + c + 'b', t.replace('/', c)]
     seen = set(); res = []
     for t in out:
         if t not in seen and len(t.encode()) < 200: seen.add(t); res.append(t)
